@@ -3,6 +3,7 @@
   Unknown or malformed requests are answered with {"error": …}; nothing is defaulted.
 -/
 import Lean.Data.Json
+import Snmp.Model.UsmParams
 import Snmp.Model.Basic
 import Snmp.Model.Py
 import Snmp.Model.Types
@@ -178,9 +179,13 @@ def walkRun (j : Json) : Except String Json := do
       pure (Fault.withFault x0 foids (← getInt f "status") (← getInt f "index") vbs')
     | .error _ => pure x0
   let x ← match (← j.getObjVal? "agent").getObjVal? "policy" with
-    | .ok p => match p.getObjVal? "starve" with
-      | .ok t => do pure (Fault.starve x (← oidOfJson t))
-      | .error _ => pure x
+    | .ok p => do
+      let x ← match p.getObjVal? "starve" with
+        | .ok t => do pure (Fault.starve x (← oidOfJson t))
+        | .error _ => pure x
+      match p.getObjValAs? Nat "maxvb" with
+        | .ok n => pure (Fault.limit x n)
+        | .error _ => pure x
     | .error _ => pure x
   let r ← match kind with
     | "getnext" => pure (Walk.walkGetnext x roots lenient fuel)
@@ -641,7 +646,12 @@ def oracleCrypto (j : Json) : Except String Usm.Crypto := do
   let dec ← optBytesOfJson j "dec"
   let cipher ← optBytesOfJson j "cipher"
   let salt ← optBytesOfJson j "salt"
-  pure { mac := fun _ _ => mac.getD [], loc := fun pw eid => pw ++ [256] ++ eid,
+  -- `mac_input`: the octets the harness computed `mac` over; a different MAC input gets another digest
+  let macIn ← optBytesOfJson j "mac_input"
+  pure { mac := fun _ z => match macIn with
+           | some zi => if z == zi then mac.getD [] else [222, 173]
+           | none => mac.getD [],
+         loc := fun pw eid => pw ++ [256] ++ eid,
          enc := fun _ _ _ _ _ => (cipher.getD [], salt.getD []), dec := fun _ _ _ _ _ _ => dec }
 
 def pduToJson (p : Spec.Pdu) : Json :=
@@ -657,11 +667,29 @@ def usmIncoming (j : Json) : Except String Json := do
     engineId := ← bytesOfJson (← m.getObjVal? "engine_id"), boots := ← getInt m "boots", time := ← getInt m "time",
     user := ← bytesOfJson (← m.getObjVal? "user"), authParams := ← bytesOfJson (← m.getObjVal? "auth"),
     privParams := ← bytesOfJson (← m.getObjVal? "priv"), dataTag := ← getNat m "data_tag", data := ← bytesOfJson (← m.getObjVal? "data") }
-  let im : Usm.InMsg := ⟨msg, ← optBytesOfJson j "zeroed"⟩
+  -- with the datagram at hand the MAC input is derived from it as the real code does
+  -- (`reset_raw_digest` over the x690 mirror); the harness's own zeroed form otherwise
+  let im : Usm.InMsg ← match j.getObjVal? "datagram" with
+    | .ok dg => do pure (Usm.inMsgOfWire msg (← bytesOfJson dg))
+    | .error _ => do pure (⟨msg, ← optBytesOfJson j "zeroed"⟩ : Usm.InMsg)
   match Usm.processIncoming cr c im with
   | .ok s => pure (toJson (#[toJson "ok", Json.mkObj [("ctx_engine", toJson (toHex s.contextEngineId)),
       ("ctx_name", toJson (toHex s.contextName)), ("pdu", pduToJson s.pdu)]] : Array Json))
   | .error e => pure (toJson (#[toJson "error", errToJson e] : Array Json))
+
+def usmReset (j : Json) : Except String Json := do
+  match RawDigest.resetRawDigest (← bytesOfJson (← j.getObjVal? "datagram")) with
+  | .ok z => pure (toJson (#[toJson "ok", toJson (toHex z)] : Array Json))
+  | .error .digestLength => pure (toJson (#[toJson "error", toJson "digestLength"] : Array Json))
+  | .error (.ber e) => pure (berErrToJson e)
+
+def usmParams (j : Json) : Except String Json := do
+  let data ← bytesOfJson (← j.getObjVal? "data")
+  match UsmParams.ofBytes data (data.length + 16) with
+  | .ok p => pure (toJson (#[toJson "ok", Json.mkObj [("engine_id", toJson (toHex p.engineId)), ("boots", toJson p.boots),
+      ("time", toJson p.time), ("user", toJson (toHex p.user)), ("auth", toJson (toHex p.auth)), ("priv", toJson (toHex p.priv))]] : Array Json))
+  | .error .malformed => pure (toJson (#[toJson "error", toJson "malformed"] : Array Json))
+  | .error (.ber e) => pure (berErrToJson e)
 
 def usmOutgoing (j : Json) : Except String Json := do
   let c ← credsOfJson (← j.getObjVal? "creds")
@@ -696,6 +724,8 @@ def handle (j : Json) : Except String Json := do
   | "py.wrap" => pyWrap j
   | "usm.incoming" => usmIncoming j
   | "usm.outgoing" => usmOutgoing j
+  | "usm.reset" => usmReset j
+  | "usm.params" => usmParams j
   | "key.expand" => pure (toJson (toHex (Usm.expand (← bytesOfJson (← j.getObjVal? "pw")) (← getNat j "n"))))
   | "emit" => emitOp j
   | "conc.run" => concRun j
